@@ -62,6 +62,9 @@ REQUESTS = [
     ("success-deep-list", {"query": "{ l { x l { x } } w }", "custom": {"Obj.x": "async", "Obj.l": "sync", "Query.w": "nested"}}, ["query", "parsing", "validation", "execution"]),
     ("success-fragments", {"query": "{ ...F a } fragment F on Query { b o { ...G } } fragment G on Obj { x y }", "custom": {"Query.b": "async", "Obj.y": "async"}}, ["query", "parsing", "validation", "execution"]),
     ("partial-two-errors", {"query": "{ a b c o { x y } }", "custom": {"Query.a": "async", "Query.c": "sync", "Obj.x": "async", "Obj.y": "sync"}, "overrides": {"a": "err", "o.y": "null"}}, ["query", "parsing", "validation", "execution"]),
+    ("partial-argument-coercion", {"query": "query ($q: Int = 1) { r(q: $q) a }", "variables": {"q": None}, "custom": {"Query.r": "sync", "Query.a": "async"}}, ["query", "parsing", "validation", "execution"]),
+    ("partial-null-values", {"query": "{ a o { x } b l { x } }", "custom": {"Query.a": "async", "Query.o": "sync", "Query.b": "sync", "Obj.x": "async"}, "overrides": {"a": "null", "o": "null", "l.0.x": "null"}}, ["query", "parsing", "validation", "execution"]),
+    ("partial-error-subclass", {"query": "{ a b }", "custom": {"Query.a": "async", "Query.b": "sync"}, "overrides": {"a": "err-sub", "b": "err-sub"}}, ["query", "parsing", "validation", "execution"]),
     ("mutation-list", {"query": "mutation { m4 { x } m3 }", "custom": {"Mutation.m4": "async", "Obj.x": "async", "Mutation.m3": "sync"}}, ["query", "parsing", "validation", "execution"]),
     ("mutation", {"query": "mutation { m3 m1 { x } }", "custom": {"Mutation.m3": "async", "Mutation.m1": "sync", "Obj.x": "async"}}, ["query", "parsing", "validation", "execution"]),
     ("mutation-partial", {"query": "mutation { m3 m5 }", "custom": {"Mutation.m3": "async", "Mutation.m5": "async"}, "overrides": {"m3": "err"}}, ["query", "parsing", "validation", "execution"]),
@@ -72,10 +75,10 @@ REQUESTS = [
 
 def _stacks(tier):
     if tier == "thorough":
-        ins = [(1, False), (2, False), (3, False), (3, True)]
+        ins = [(1, False), (2, False), (3, False), (3, True), (4, "middle")]
         mws = [0, 1, 2, 3]
     else:
-        ins = [(1, False), (2, False), (3, True)]
+        ins = [(1, False), (2, False), (3, True), (4, "middle")]
         mws = [0, 2]
     for k, nested in ins:
         for m in mws:
@@ -222,7 +225,12 @@ def monitor(world, obs, scn, stages):
                 elif e[0] == "mw-after":
                     after.setdefault(e[2], []).append(e[1])
             mtags = ["M%d" % i for i in range(m)]
+            # a field whose ARGUMENTS could not be coerced never reaches its resolver: no resolver call, hence no
+            # middleware call, is demanded for it
+            uncalled = {e[1] for e in (obs.get("errors") or []) if len(e) > 2 and e[2] == "CoercionError"}
             for p in expected:
+                if p in uncalled and p not in before:
+                    continue
                 if before.get(p) != mtags[::-1]:
                     probs.append(("middleware-before", "field %s entered middlewares %s expected %s" % (p, before.get(p), mtags[::-1])))
                 a = after.get(p)
